@@ -269,6 +269,12 @@ pub struct Gc {
     /// only refer to each other through some reference or channel allocated in generation 0 (and
     /// if they do interact with eachother this means the values are cloned into generation 0).
     generation: Generation,
+    #[cfg(gluon_verif)]
+    #[cfg_attr(feature = "serde_derive", serde(skip))]
+    verif_id: u32,
+    #[cfg(gluon_verif)]
+    #[cfg_attr(feature = "serde_derive", serde(skip))]
+    verif_visitor: Option<Box<VerifVisitor>>,
 }
 
 impl Drop for Gc {
@@ -356,6 +362,10 @@ struct GcHeader {
     marked: Cell<bool>,
     value_size: usize,
     type_info: *const TypeInfo,
+    #[cfg(gluon_verif)]
+    verif_owner: u32,
+    #[cfg(gluon_verif)]
+    verif_freed: Cell<bool>,
 }
 
 struct AllocPtr {
@@ -377,6 +387,10 @@ impl AllocPtr {
                         type_info: type_info,
                         value_size: value_size,
                         marked: Cell::new(false),
+                        #[cfg(gluon_verif)]
+                        verif_owner: 0,
+                        #[cfg(gluon_verif)]
+                        verif_freed: Cell::new(false),
                     },
                 );
                 AllocPtr { ptr }
@@ -409,6 +423,15 @@ impl Drop for AllocPtr {
             let size = self.size();
             ((*self.type_info).drop)(self.value());
             ptr::read(&*self.ptr);
+            #[cfg(gluon_verif)]
+            if crate::verif::quarantine_enabled() {
+                // Poison the payload and keep the block allocated so that any later access through
+                // a stale `GcPtr` is detected deterministically
+                ptr::write_bytes(self.value() as *mut u8, 0xDE, self.value_size);
+                (*self.ptr).verif_freed.set(true);
+                crate::verif::quarantine_push(self.ptr as usize, size);
+                return;
+            }
             deallocate(self.ptr as *mut u8, size);
         }
     }
@@ -619,6 +642,8 @@ unsafe impl<T: ?Sized + Send + Sync> Sync for GcPtr<T> {}
 impl<T: ?Sized> Deref for GcPtr<T> {
     type Target = T;
     fn deref(&self) -> &T {
+        #[cfg(gluon_verif)]
+        self.verif_check_live("deref");
         unsafe { self.0.as_ref() }
     }
 }
@@ -1055,8 +1080,12 @@ where
     }
     fn trace(&self, gc: &mut Gc) {
         if !gc.mark(self) {
+            #[cfg(gluon_verif)]
+            let verif_prev = gc.verif_enter_heap(self.header().verif_owner);
             // Continue traversing if this ptr was not already marked
             (**self).trace(gc);
+            #[cfg(gluon_verif)]
+            gc.verif_leave_heap(verif_prev);
         }
     }
 }
@@ -1073,6 +1102,10 @@ impl Gc {
             record_infos: FnvMap::default(),
             tag_infos: FnvMap::default(),
             generation: generation,
+            #[cfg(gluon_verif)]
+            verif_id: crate::verif::next_heap_id(),
+            #[cfg(gluon_verif)]
+            verif_visitor: None,
         }
     }
 
@@ -1245,6 +1278,10 @@ impl Gc {
 
         let mut ptr = AllocPtr::new::<D::Value>(type_info, size);
         ptr.next = self.values.take();
+        #[cfg(gluon_verif)]
+        {
+            ptr.verif_owner = self.verif_id;
+        }
         self.allocated_memory += ptr.size();
         unsafe {
             let p: *mut D::Value = D::Value::make_ptr(&def, ptr.value());
@@ -1264,6 +1301,11 @@ impl Gc {
         R: Trace + CollectScope,
     {
         unsafe {
+            #[cfg(gluon_verif)]
+            if crate::verif::gc_decide(self.verif_id, self.allocated_memory, self.collect_limit) {
+                self.collect(roots);
+                return true;
+            }
             if self.allocated_memory >= self.collect_limit {
                 self.collect(roots);
                 true
@@ -1293,6 +1335,10 @@ impl Gc {
     /// Returns true if the pointer was already marked
     pub fn mark<T: ?Sized>(&mut self, value: &GcPtr<T>) -> bool {
         let header = value.header();
+        #[cfg(gluon_verif)]
+        if let Some(already_marked) = self.verif_mark(header) {
+            return already_marked;
+        }
         // We only need to mark and trace values from this garbage collectors generation
         if header.generation().is_parent_of(self.generation()) || header.marked.get() {
             true
@@ -1363,6 +1409,153 @@ impl Gc {
         }
         debug!("FREE: {:?}", header);
         drop(header);
+    }
+}
+
+/// Result of walking the object graph with the VM's own `Trace` implementations
+#[cfg(gluon_verif)]
+#[derive(Debug, Default)]
+pub struct VerifVisitor {
+    visited: HashSet<usize>,
+    current_owner: u32,
+    /// Number of distinct live objects reached
+    pub objects: u64,
+    /// Sum of the block sizes of the distinct live objects reached, per owning heap
+    pub bytes_per_heap: std::collections::BTreeMap<u32, usize>,
+    /// `(from_heap, to_heap) -> count` for every pointer whose target is owned by another heap than
+    /// the object (or root set) holding it
+    pub cross_edges: std::collections::BTreeMap<(u32, u32), u64>,
+    /// `(from_heap, owner, address)` of freed objects that were reachable
+    pub freed_reached: Vec<(u32, u32, usize)>,
+    /// `(heap, parent_heap)` for every thread encountered
+    pub heap_parents: std::collections::BTreeMap<u32, u32>,
+}
+
+#[cfg(gluon_verif)]
+pub(crate) unsafe fn verif_deallocate(ptr: *mut u8, size: usize) {
+    unsafe { deallocate(ptr, size) }
+}
+
+#[cfg(gluon_verif)]
+impl<T: ?Sized> GcPtr<T> {
+    #[inline]
+    fn verif_check_live(&self, kind: &'static str) {
+        let header = self.header();
+        if header.verif_freed.get() {
+            crate::verif::on_freed(kind, header.verif_owner, header as *const _ as usize);
+        }
+    }
+
+    /// The id of the heap which allocated this object
+    pub fn verif_owner(&self) -> u32 {
+        self.header().verif_owner
+    }
+
+    pub fn verif_is_freed(&self) -> bool {
+        self.header().verif_freed.get()
+    }
+}
+
+#[cfg(gluon_verif)]
+impl Gc {
+    pub fn verif_id(&self) -> u32 {
+        self.verif_id
+    }
+
+    /// Overrides the collection threshold (tuning knob randomised by the simulator)
+    pub fn verif_set_collect_limit(&mut self, limit: usize) {
+        self.collect_limit = limit;
+    }
+
+    /// Creates a `Gc` which does not own any values and which records the object graph instead of
+    /// marking when passed to `Trace::trace`
+    pub fn verif_new_visitor() -> Gc {
+        let mut gc = Gc::new(Generation::default(), usize::MAX);
+        gc.verif_visitor = Some(Box::default());
+        gc
+    }
+
+    pub fn verif_is_visitor(&self) -> bool {
+        self.verif_visitor.is_some()
+    }
+
+    pub fn verif_take_visitor(&mut self) -> Option<Box<VerifVisitor>> {
+        self.verif_visitor.take()
+    }
+
+    /// Number of objects in this heap's allocation list
+    pub fn verif_object_count(&self) -> usize {
+        let mut count = 0;
+        let mut header: Option<&AllocPtr> = self.values.as_ref();
+        while let Some(h) = header {
+            count += 1;
+            header = h.next.as_ref();
+        }
+        count
+    }
+
+    pub(crate) fn verif_enter_heap(&mut self, heap: u32) -> u32 {
+        match &mut self.verif_visitor {
+            Some(visitor) => mem::replace(&mut visitor.current_owner, heap),
+            None => 0,
+        }
+    }
+
+    pub(crate) fn verif_leave_heap(&mut self, prev: u32) {
+        if let Some(visitor) = &mut self.verif_visitor {
+            visitor.current_owner = prev;
+        }
+    }
+
+    pub(crate) fn verif_enter_thread(&mut self, heap: u32, parent: u32) -> u32 {
+        match &mut self.verif_visitor {
+            Some(visitor) => {
+                visitor.heap_parents.insert(heap, parent);
+                mem::replace(&mut visitor.current_owner, heap)
+            }
+            None => 0,
+        }
+    }
+
+    fn verif_mark(&mut self, header: &GcHeader) -> Option<bool> {
+        let addr = header as *const GcHeader as usize;
+        if header.verif_freed.get() {
+            crate::verif::on_freed(
+                if self.verif_visitor.is_some() {
+                    "walk"
+                } else {
+                    "mark"
+                },
+                header.verif_owner,
+                addr,
+            );
+            if let Some(visitor) = &mut self.verif_visitor {
+                visitor
+                    .freed_reached
+                    .push((visitor.current_owner, header.verif_owner, addr));
+            }
+            // Never traverse into a freed object
+            return Some(true);
+        }
+        match &mut self.verif_visitor {
+            Some(visitor) => {
+                if visitor.current_owner != header.verif_owner {
+                    *visitor
+                        .cross_edges
+                        .entry((visitor.current_owner, header.verif_owner))
+                        .or_insert(0) += 1;
+                }
+                if visitor.visited.insert(addr) {
+                    visitor.objects += 1;
+                    *visitor.bytes_per_heap.entry(header.verif_owner).or_insert(0) +=
+                        GcHeader::value_offset() + header.value_size;
+                    Some(false)
+                } else {
+                    Some(true)
+                }
+            }
+            None => None,
+        }
     }
 }
 
